@@ -417,6 +417,7 @@ var templates = []template{
 	{name: "recv", weight: 3, prefs: []string{"chan"}, ops: []string{"expr", "let1", "letok"}},
 	{name: "close", weight: 2, prefs: []string{"chan"}},
 	{name: "delete", weight: 2, prefs: []string{"map", "key"}},
+	{name: "maketype", weight: 2, prefs: []string{"any"}, ops: []string{"make", "typeof", "slice"}},
 	{name: "delvar", weight: 2, prefs: []string{"str", "bool"}, ops: []string{"global-flag", "name-only", "nested"}},
 	{name: "throw", weight: 1, prefs: []string{"scalar"}},
 	{name: "setidx", weight: 3, prefs: []string{"indexable", "key", "scalar"}},
@@ -754,6 +755,15 @@ func body(c Case, e []string) string {
 		return "close(" + e[0] + ")"
 	case "delete":
 		return "delete(" + e[0] + ", " + e[1] + ")"
+	case "maketype":
+		// make(type T, v) names the dynamic type of v
+		switch c.Op {
+		case "typeof":
+			return "r = make(type TT, " + e[0] + ")\nr"
+		case "slice":
+			return "make(type TT, " + e[0] + ")\nr = make([]TT, 1)\nr"
+		}
+		return "make(type TT, " + e[0] + ")\nr = make(TT)\nr"
 	case "delvar":
 		// delete("name"[, global]) removes a variable: from the current scope, or with a true second
 		// operand the nearest binding; hv lives at top level, the delete runs inside a function
